@@ -63,6 +63,8 @@ JudgeEq(C) ==
       \* == is a relation on terms, not on object histories: the matrix observed before any hash was taken (eq0)
       \* and the one observed on the same objects afterwards (eq) are the same
       ELSE IF \E i, j \in 1..n : C.eq0[i][j] # C.eq[i][j] THEN "eq-changes-after-hashing"
+      \* ... nor after the terms were printed (eq2: the matrix observed once str() / repr() of every object was taken)
+      ELSE IF \E i, j \in 1..n : C.eq2[i][j] # C.eq[i][j] THEN "eq-changes-after-printing"
       ELSE ""
 
 JudgeCase(C) ==
